@@ -65,7 +65,7 @@ class Material:
         if s == "ext": return s1 + bytes([v % 256]) * (1 + v % 2)
         o = bytearray(s1 or b"\x00")
         if v % 5 == 4:
-            return bytes((b + 1 + v) % 256 for b in o)       # all octets different
+            return bytes((b + 1 + v % 255) % 256 for b in o)       # all octets different (offset 1..255, never 0 mod 256)
         bit = v % (len(o) * 8)
         o[bit // 8] ^= 1 << (bit % 8)
         return bytes(o)
